@@ -21,12 +21,15 @@ text = dl.fmt_program(prog)
 D = os.path.join(runner.WORK, "reduce", "%s-%d" % (modname, seed))
 shutil.rmtree(D, ignore_errors=True)
 os.makedirs(D)
-vs = mod.variants(prog, text, rng, D)
+SELF = hasattr(mod, "reduce_outcome")
+vs = [dict(name="self")] if SELF else mod.variants(prog, text, rng, D)
 BASE_ARGS = list(getattr(mod, "BASELINE_ARGS", []))
 
 
 def outcome(p, v):
     """-> violation key of variant v on program p or None"""
+    if SELF:
+        return mod.reduce_outcome(p, souffle, D)
     t = dl.fmt_program(p)
     runner.write_case(D, p, text=t)
     b = runner.run_souffle(souffle, D, args=BASE_ARGS, outdir="base", timeout=60)
